@@ -2936,6 +2936,10 @@ def translate_source(src: str, specs: list, module_name: str, rel: str):
 def generate(pid: str, repo: str):
     """all generated files of one property: ({file name: text}, infos)"""
     import srctie_specs
+    ext = [sp for sp in srctie_specs.SPECS.get(pid, []) if sp.get('translator')]
+    if ext:      # dispatch: specs translated by a module of their own (spec key `translator`, e.g. py2lean_c18)
+        import importlib as _il
+        return _il.import_module(ext[0]['translator']).generate(pid, repo, ext)
     # a generated file holds the functions of one module (spec `gen_file`: of one named group of a module, so that
     # e.g. the heap-mode classes of boltons.cacheutils do not share a file with ThresholdCounter)
     mods = {(spec['module'], spec.get('gen_file')) for spec in srctie_specs.SPECS.get(pid, [])}
